@@ -81,7 +81,15 @@ def sweep_one(s, c, uri, cache, sigs, job, m, p):
         ev = {"k": "noresp"}
     key = (m, ev.get("tag"), ev.get("message", ""), json.dumps(ev.get("ranges")))
     if key not in sigs:
-        sigs[key] = {"ev": ev, "req": {"file": job["file"], "method": m, "params": p, "mutated": job.get("text") is not None}, "n": 0}
+        req = {"file": job["file"], "method": m, "params": p, "mutated": job.get("text") is not None}
+        try:
+            fo = s.workspace.get(adapter.path_from_uri(uri))
+            ltxt = fo.contents_split[p["position"]["line"]]
+            if re.match(r"\s*include\s*['\"]", ltxt, re.I):
+                req["on_include_statement"] = True
+        except (KeyError, IndexError, AttributeError, TypeError):
+            pass
+        sigs[key] = {"ev": ev, "req": req, "n": 0}
     sigs[key]["n"] += 1
     return 1
 
@@ -262,8 +270,24 @@ def main(tier, seed):
                       "  subroutine s(a, b)\n    use nomodule_abc\n    DTYPE, intent(in) :: a, nosuch_arg\n    DTYPE :: x, a\n    LONGCALL(a); x = a\n  end subroutine s\n"
                       "  DTYPE function f(q)\n    DTYPE :: q, q\n    f = q\n  end function f\nend module ppm\n"
                       "program ppp\n  use ppm; use nomodule_xyz\n  implicit none\n  DTYPE :: y; DTYPE :: y\n  LONGCALL(y); y = f(y)\n  DTYPE :: late_decl\nend program ppp\n")
+    # documentation comments with braces / format-like text reach the hover of procedures, generic interfaces, variables
+    gen["docbrace.f90"] = ("module dbm\n  implicit none\n  !> the set {(x,y) : x > 0}, {} and {0}, and an open { brace\n  integer :: dvar !< trailing {doc}\n"
+                           "  interface area\n    module procedure area_sq\n  end interface area\ncontains\n  !> Computes \\f$ \\sqrt{\\sum x_i^2} \\f$ for {x_i}\n"
+                           "  function area_sq(x) result(a)\n    real, intent(in) :: x !< side {len}\n    real :: a\n    a = x * x\n  end function area_sq\n"
+                           "  subroutine user()\n    real :: y\n    y = area(2.0)\n    y = area_sq(2.0) + dvar\n  end subroutine user\nend module dbm\n")
+    # INCLUDE: the included file is longer than the including one and both carry diagnosable declarations
+    gen["incmain.f90"] = ("module incm\n  implicit none\n  integer :: ntot\ncontains\n  subroutine step()\n    use nomodule_inc\n    include 'incdecl.f90'\n    ntot = ndup\n  end subroutine step\nend module incm\n")
+    gen["incdecl.f90"] = "! c1\n! c2\n! c3\n! c4\n! c5\n! c6\n! c7\n! c8\n! c9\n! c10\ninteger :: ntot\ninteger :: ndup\ninteger :: ndup\n"
+    gen["incone.f90"] = "program incone\n  implicit none\n\n\n\n\n\n\n  include 'incshort.f90'\n  kshort = 1\nend program incone\n"
+    gen["incshort.f90"] = "integer :: kshort\n"
+    # a construct left open in front of another program unit; declarations outside any program unit
+    gen["openiface.f90"] = ("module oa\n  interface\n    subroutine foo(x)\n      real :: x\n    end subroutine foo\nend module oa\nmodule ob\n  integer :: k\ncontains\n  subroutine bar()\n    k = 1\n  end subroutine bar\nend module ob\n")
+    gen["outside.f90"] = "module om\nend module om\ninteger, p\nreal, dim\ntype(\ncall \nuse \n"
+    gen["outside2.f90"] = "real, dim"
     d = adapter.mkws(gen)
     try:
+        for g in ("docbrace.f90", "incmain.f90", "incdecl.f90", "incone.f90", "incshort.f90", "openiface.f90", "outside.f90", "outside2.f90"):
+            jobs.append({"root": d, "file": g, "colstep": 1, "methods": METHODS})
         jobs.append({"root": d, "file": "intr.f90", "colstep": 4 if tier == "quick" else 1, "methods": METHODS})
         jobs.append({"root": d, "file": "imods.f90", "colstep": 2 if tier == "quick" else 1, "methods": METHODS})
         jobs.append({"root": d, "file": "pp1.F90", "colstep": 1, "methods": METHODS})
@@ -331,6 +355,8 @@ def main(tier, seed):
             tags.add("noResponse")
         if t["req"].get("mutated"):
             tags.add("doc:mutated")
+        if t["req"].get("on_include_statement"):
+            tags.add("cursor:includeStatement")
         ck.violation(tags, {"kind": "exchange", "request": t["req"], "events": t["events"], "occurrences": t.get("n", 1)})
     for t in traces[:: max(1, len(traces) // 4)][:4]:
         ck.sample({"request": t["req"], "events": t["events"]})
